@@ -235,6 +235,12 @@ detect_osxsave(void)
         return (cpuid_1_0.ecx & (1UL << 27));
 }
 
+#ifdef IMB_VERIF
+#include "include/verif_hooks.h"
+imb_verif_stage_cb_t imb_verif_stage_cb = NULL;
+uint64_t imb_verif_feature_mask = ~UINT64_C(0);
+#endif
+
 uint64_t
 cpu_feature_detect(void)
 {
@@ -292,6 +298,9 @@ cpu_feature_detect(void)
                         features |= feat_tab[i].feat;
         }
 
+#ifdef IMB_VERIF
+        features &= imb_verif_feature_mask;
+#endif
 #ifdef SAFE_DATA
         features |= IMB_FEATURE_SAFE_DATA;
 #endif
